@@ -845,3 +845,20 @@ package queue
 //@   ensures [C04:only_named_live_leases_settle_expired_ones_are_released] let now := storeNow :: forall id string :: id in s.items ==> let e := s.items[id] :: same(e) || (old(e.State == StateLeased) && idSelected(leaseIDs, old(e.LeaseID)) && ((old(expiredAt(e, now)) && released(e, now)) || (!old(expiredAt(e, now)) && settled(e, StateDead, now, reason))))
 //@   ensures [C02:no_creation] forall id string :: id in s.items ==> old(id in s.items) && s.items[id] == old(s.items[id])
 //@   ensures [C04:other_leases_untouched] forall l string :: (l in s.leases ==> old(l in s.leases) && s.leases[l] == old(s.leases[l])) && (old(l in s.leases) && !(l in s.leases) ==> idSelected(leaseIDs, l))
+
+// ---- C05: the SQLite expired-lease sweep is throttled to at most the 10 ms granularity ----
+// Atomics are read with interference: the loaded value is arbitrary, the compare-and-swap may lose against another sweeper.
+
+//@ spec
+//@ ghost var casSwapped bool
+//@ func sweepInterval(s *SQLiteStore) int := ite(s.pollInterval > 0 && s.pollInterval < 10000000, s.pollInterval, 10000000)
+//@ extern sync/atomic.CompareAndSwapInt64(addr, old, new) (swapped)
+//@   modifies casSwapped
+//@   ensures casSwapped == swapped
+
+//@ func (*SQLiteStore).shouldSweepExpiredLeases
+//@   requires s != nil
+//@   modifies casSwapped
+//@   ensures [C05:sweep_granularity_is_at_most_10ms] sweepInterval(s) > 0 && sweepInterval(s) <= 10000000
+//@   ensures [C05:sweeps_only_when_the_interval_elapsed_since_the_observed_sweep] result ==> unixNanoOf(now) - local(lastNanos) >= sweepInterval(s)
+//@   ensures [C05:declines_only_within_the_interval_or_when_another_sweeper_won] !result ==> unixNanoOf(now) - local(lastNanos) < sweepInterval(s) || !casSwapped
